@@ -25,7 +25,7 @@ import signal
 import threading
 import time
 import traceback
-from contextlib import contextmanager
+from contextlib import contextmanager, nullcontext
 
 import numpy as _np
 
@@ -35,7 +35,12 @@ EXEC_TIME_LIMIT = 60.0  # seconds for ONE execution of a generator (watchdog aga
 
 
 class Cut(BaseException):
-    """the draw budget of an enumeration is used up (not an error, the branch is counted as cut)"""
+    """the draw budget of an enumeration is used up (not an error, the branch is counted as cut);
+    total=True: the hard cap on the number of draws of one execution was hit instead (the generator does not seem to return)"""
+
+    def __init__(self, total=False):
+        super().__init__()
+        self.total = total
 
 
 class UnmodelledDraw(BaseException):
@@ -68,7 +73,7 @@ class ScriptRNG:
 
     def _budget(self, n):
         if self.max_total is not None and len(self.trace) >= self.max_total:
-            raise Cut()
+            raise Cut(total=True)
         if n > 1 and self.max_branching is not None and self.branching >= self.max_branching:
             raise Cut()
 
@@ -246,15 +251,19 @@ def time_limit(seconds):
 class Execution:
     """one run of a generator under a script"""
 
-    __slots__ = ("gen", "shape", "kwargs", "script", "trace", "maze", "exc", "cut", "mode")
+    __slots__ = ("gen", "shape", "kwargs", "script", "trace", "maze", "exc", "cut", "cut_total", "mode", "global_seed")
 
     def __init__(self, gen, shape, kwargs):
         self.gen, self.shape, self.kwargs = gen, tuple(int(x) for x in shape), dict(kwargs)
-        self.script, self.trace, self.maze, self.exc, self.cut, self.mode = [], [], None, None, False, "script"
+        self.script, self.trace, self.maze, self.exc, self.cut, self.mode, self.global_seed = [], [], None, None, False, "script", None
+        self.cut_total = False  # cut by the hard cap on draws (not by the enumeration budget)
 
     def input(self):
         """what replay() needs to re-run exactly this execution"""
-        return {"generator": self.gen, "shape": list(self.shape), "kwargs": dict(self.kwargs), "script": list(self.script)}
+        d = {"generator": self.gen, "shape": list(self.shape), "kwargs": dict(self.kwargs), "script": list(self.script)}
+        if self.global_seed is not None:
+            d["global_seed"] = self.global_seed  # run with the REAL random / np.random seeded with this value (no script)
+        return d
 
 
 def norm_kwargs(kwargs):
@@ -268,7 +277,8 @@ def norm_kwargs(kwargs):
 
 
 def call_generator(gen, shape, kwargs, rng):
-    """run the real generator with `rng` installed; returns an Execution (maze, or the exception it raised, or cut)"""
+    """run the real generator with `rng` installed (rng None: nothing installed, the real global RNGs are used);
+    returns an Execution (maze, or the exception it raised, or cut)"""
     G = generators_module()
     ex = Execution(gen, shape, kwargs)
     fn = getattr(G.LatticeMazeGenerators, gen)
@@ -277,30 +287,61 @@ def call_generator(gen, shape, kwargs, rng):
     grid = _np.array(ex.shape) if gen == "gen_wilson" or kw.pop("_shape_as_array", False) else ex.shape
     kw.pop("_shape_as_array", None)
     try:
-        with time_limit(EXEC_TIME_LIMIT), installed(rng):
+        with time_limit(EXEC_TIME_LIMIT), (installed(rng) if rng is not None else nullcontext()):
             ex.maze = fn(grid, **kw)
-    except Cut:
-        ex.cut = True
+    except Cut as c:
+        ex.cut, ex.cut_total = True, c.total
     except (UnmodelledDraw, ExecutionTimeout, KeyboardInterrupt):
         raise
     except BaseException as e:  # noqa: BLE001 - an exception of the code under check
         if isinstance(e, (SystemExit, MemoryError)):
             raise
         ex.exc = e
-    ex.trace = list(rng.trace)
-    ex.script = rng.script_out()
+    if rng is not None:
+        ex.trace = list(rng.trace)
+        ex.script = rng.script_out()
     return ex
+
+
+def global_seed_execution(gen, shape, kwargs, seed):
+    """the generator exactly as a user runs it: REAL random / np.random, both seeded with `seed` (state restored afterwards).
+    Keeps the scripted source honest (argument conventions of the real draw functions); no script, replay re-seeds."""
+    st_py, st_np = _pyrandom.getstate(), _np.random.get_state()
+    try:
+        _pyrandom.seed(seed)
+        _np.random.seed(seed % (2**32))
+        ex = call_generator(gen, shape, kwargs, None)
+    finally:
+        _pyrandom.setstate(st_py)
+        _np.random.set_state(st_np)
+    ex.mode, ex.global_seed = "global-seed", int(seed)
+    return ex
+
+
+def replay_input(inp):
+    """re-run the execution recorded in a failure input"""
+    gen, shape, kwargs = inp["generator"], tuple(int(x) for x in inp["shape"]), norm_kwargs(inp.get("kwargs") or {})
+    if inp.get("global_seed") is not None:
+        return global_seed_execution(gen, shape, kwargs, int(inp["global_seed"]))
+    return replay_execution(gen, shape, kwargs, list(inp["script"]))
 
 
 def kw_p(kwargs):
     return kwargs.get("p", DEFAULT_P)
 
 
+def seeded_draw_cap(shape):
+    """draws allowed in one seeded execution: far above what any generator needs (a Wilson run used at most 1/40 of it in
+    trials on 3x3..20x20, 1x20, 20x3; the others draw at most ~4 per cell); guards against non-terminating modified trees"""
+    n = int(shape[0]) * int(shape[1])
+    return 30 * n * max(int(shape[0]), int(shape[1])) + 2000
+
+
 def replay_execution(gen, shape, kwargs, script):
     """re-run one recorded script.  On the tree that produced it the script fits exactly; on a changed tree entries that no
     longer fit are folded into range and a script that is too short is continued with seeded picks (continuing with the first
     alternative could make a Wilson walk bounce for ever)"""
-    rng = ScriptRNG(script, p=kw_p(kwargs), fallback=_pyrandom.Random(stable_int("replay", len(script))), enumerate_rand=False, lenient=True)
+    rng = ScriptRNG(script, p=kw_p(kwargs), fallback=_pyrandom.Random(stable_int("replay", len(script))), enumerate_rand=False, lenient=True, max_total=max(4 * len(script), seeded_draw_cap(shape)))
     return call_generator(gen, shape, kwargs, rng)
 
 
@@ -310,7 +351,7 @@ def stable_int(*parts):
 
 def seeded_execution(gen, shape, kwargs, seed):
     """a plain pseudo-random execution (all decisions from random.Random(seed)); the decisions are recorded as a script"""
-    rng = ScriptRNG((), p=kw_p(kwargs), fallback=_pyrandom.Random(seed), enumerate_rand=False)
+    rng = ScriptRNG((), p=kw_p(kwargs), fallback=_pyrandom.Random(seed), enumerate_rand=False, max_total=seeded_draw_cap(shape))
     ex = call_generator(gen, shape, kwargs, rng)
     ex.mode = "seeded"
     return ex
@@ -336,12 +377,17 @@ def enumerate_executions(gen, shape, kwargs, prefix=(), budget=None, max_total=N
     script = list(prefix)
     floor = len(script)
     count = 0
+    splitting = max_total is not None
+    if max_total is None:
+        max_total = seeded_draw_cap(shape)  # guard: no generator needs that many draws on this grid
     while script is not None:
         if rand_seed is None:
             rng = ScriptRNG(script, p=kw_p(kwargs), max_branching=budget, max_total=max_total)
         else:
             rng = _HybridRNG(script, p=kw_p(kwargs), max_branching=budget, max_total=max_total, fallback=_pyrandom.Random(stable_int(rand_seed, count)))
         ex = call_generator(gen, shape, kwargs, rng)
+        if splitting:
+            ex.cut_total = False  # (the cap is the split depth, not the guard)
         count += 1
         yield ex
         trace = ex.trace
@@ -396,6 +442,7 @@ class Partial:
         self.failures = []
         self.errors = []
         self.cut = 0
+        self.no_return = 0
         self.executions = 0
         self.by_gen = {}
 
@@ -408,7 +455,7 @@ class Partial:
             self.samples.append(sample)
 
     def fail(self, key, what, input=None, observed=None):
-        if len(self.failures) < 50 and sum(1 for f in self.failures if f["key"] == key) < 5:
+        if len(self.failures) < 50 and sum(1 for f in self.failures if f["key"] == key) < 2:
             self.failures.append({"key": key, "what": what, "input": input, "observed": observed})
 
 
@@ -417,6 +464,7 @@ def _global_rng_fingerprint():
 
 
 _CHECKERS = {}
+_TIMEOUTS = None  # shared array (one counter per generator) of executions that hit the watchdog, set by run_jobs before forking
 
 
 def register_checker(name, fn):
@@ -431,16 +479,28 @@ def run_job(job):
     check = _CHECKERS[job["checker"]]
     gen, shape, kwargs = job["gen"], job["shape"], job["kwargs"]
     cache = {}
+    if _TIMEOUTS is not None and _TIMEOUTS[GENERATORS.index(gen)] >= 2:
+        part.errors.append(f"{gen}{shape}{kwargs}: job skipped, two executions of {gen} already exceeded the time limit")
+        part.seconds = 0.0
+        return part
     try:
         before = _global_rng_fingerprint()
         if job["kind"] == "enum":
             it = enumerate_executions(gen, shape, kwargs, prefix=job.get("prefix", ()), budget=job.get("budget"), rand_seed=job.get("rand_seed"))
+        elif job["kind"] == "global-seed":
+            it = (global_seed_execution(gen, shape, kwargs, s % (2**32)) for s in job["seeds"])
         else:
             it = (seeded_execution(gen, shape, kwargs, s) for s in job["seeds"])
         for ex in it:
             part.executions += 1
             if ex.cut:
                 part.cut += 1
+                if ex.cut_total:
+                    part.no_return += 1
+                    if part.no_return <= 3:
+                        check(part, ex, cache)  # C01 reports it (the generator did not return within the hard cap on draws)
+                    if part.no_return >= 20:
+                        break  # the whole sub-tree is like that: stop burning time
                 continue
             part.by_gen[gen] = part.by_gen.get(gen, 0) + 1
             check(part, ex, cache)  # (checkers that use the global RNG restore its state)
@@ -449,6 +509,8 @@ def run_job(job):
     except UnmodelledDraw as e:
         part.errors.append(f"{gen}{shape}{kwargs}: {e}")
     except ExecutionTimeout:
+        if _TIMEOUTS is not None:
+            _TIMEOUTS[GENERATORS.index(gen)] += 1
         part.errors.append(f"{gen}{shape}{kwargs}: one execution ran longer than {EXEC_TIME_LIMIT:.0f}s (prefix {job.get('prefix')}, seeds {job.get('seeds')}); possible non-termination of the code under check")
     except Exception as e:  # noqa: BLE001 - harness crash
         part.errors.append(f"{gen}{shape}{kwargs}: {type(e).__name__}: {e}\n{traceback.format_exc(limit=6)}")
@@ -472,7 +534,9 @@ def expand_jobs(jobs):
 
 def run_jobs(jobs, res, nproc=None):
     """run all jobs (fork pool), merge into the BoundedResult `res` in job order; returns dict(cut=..., executions=..., by_gen=...)"""
+    global _TIMEOUTS
     generators_module()  # import before forking
+    _TIMEOUTS = multiprocessing.get_context("fork").Array("i", len(GENERATORS))
     t_start = time.time()
     jobs = expand_jobs(jobs)
     t_split = time.time()
@@ -495,7 +559,7 @@ def run_jobs(jobs, res, nproc=None):
             if len(res.samples) < 3:
                 res.samples.append(s)
         for f in part.failures:
-            if sum(1 for g in res.failures if g["key"] == f["key"]) < 5:  # at most 5 inputs per stable key
+            if sum(1 for g in res.failures if g["key"] == f["key"]) < 2:  # at most 2 inputs per stable key (room for many keys)
                 res.fail(f["key"], f["what"], f["input"], f["observed"])
         for e in part.errors:
             if len(res.errors) < 20:
@@ -529,8 +593,8 @@ def enum_job(checker, gen, shape, kwargs=None, budget=None, split=False, rand_se
     return {"checker": checker, "kind": "enum", "gen": gen, "shape": tuple(shape), "kwargs": dict(kwargs or {}), "budget": budget, "split": split, "rand_seed": rand_seed, "want": want}
 
 
-def seeded_job(checker, gen, shape, kwargs, seeds):
-    return {"checker": checker, "kind": "seeded", "gen": gen, "shape": tuple(shape), "kwargs": dict(kwargs or {}), "seeds": list(seeds)}
+def seeded_job(checker, gen, shape, kwargs, seeds, real=False):
+    return {"checker": checker, "kind": "global-seed" if real else "seeded", "gen": gen, "shape": tuple(shape), "kwargs": dict(kwargs or {}), "seeds": list(seeds)}
 
 
 class Stopwatch:
@@ -675,10 +739,17 @@ def plan(checker, tier, seed):
             sd_jobs.append(seeded_job(checker, "gen_percolation", sh, kw, seeds(("perc", kwargs_key(kw)), reps)))
         for kw in dfsperc_kwargs_cheap(*sh) + dfsperc_kwargs_full(*sh) + [{"p": 0.1, "accessible_cells": n // 2}, {"p": 0.2, "max_tree_depth": sh[0] + sh[1]}]:
             sd_jobs.append(seeded_job(checker, "gen_dfs_percolation", sh, kw, seeds(("dp", kwargs_key(kw)), reps)))
+    n_real = 6 if thorough else 3
+    for sh in big:
+        n = sh[0] * sh[1]
+        for gen, kws in (("gen_dfs", [{}, {"accessible_cells": 0.5}]), ("gen_prim", [{}, {"do_forks": False}]), ("gen_wilson", [{}]), ("gen_percolation", [{}, {"p": 1.0}]), ("gen_dfs_percolation", [{}, {"p": 0.0, "max_tree_depth": sh[0] + sh[1]}])):
+            for kw in kws:
+                sd_jobs.append(seeded_job(checker, gen, sh, kw, [stable_int(seed, "real", gen, sh, kwargs_key(kw), i) for i in range(n_real)], real=True))
     sd_rule = (
         f"seeded pseudo-random executions (decisions recorded as a script for replay) on {_fmt(big)}: {reps} per (generator, shape, keyword setting) "
         f"[gen_wilson: {reps} up to 64 cells, 3 up to 150 cells, 2 above; 3x3: {6 * reps}]; {len(dfs_kwargs_large(5, 5))} settings for gen_dfs/gen_prim, "
         f"{len(perc_kwargs(5, 5)) + 2} for gen_percolation (p in 0, 1, 0.25, 0.4, 0.5, 0.75), {len(dfsperc_kwargs_cheap(5, 5)) + len(dfsperc_kwargs_full(5, 5)) + 2} for gen_dfs_percolation; "
+f"plus {n_real} runs per (generator, shape, 1-2 settings) with the REAL random/np.random seeded (replayed by seed, not by script); "
         "all seeds derived from the run seed. evaluation = one execution; distinct = (generator, shape, kwargs, output bits, metadata)"
     )
     return ex_jobs, sd_jobs, ex_rule, sd_rule
